@@ -57,12 +57,12 @@ def load_discharged():
         return json.load(fh)
 
 
-def r1(ctx):
+def r1(ctx, config="A"):
     rule = "C04.R1"
     ctx.rule(rule, "T1 wire-taint -> sink: every panic-capable operation / value-sized allocation reachable from the decoder "
                    "entry set whose operand derives from wire data is discharged by a dominating comparison (D1), type-width "
                    "interval (D2), non-zero constant divisor (D3), index test (D5) or a reviewed table entry (D6)")
-    P = ctx.program()
+    P = ctx.program(config)
     entries = entry_bodies(P)
     ctx.anchor(rule, "decoder entry set (impls of Reader/PackedRead/BitRead/ProtoRead/BasicRead)", entries)
     T = TT.Taint(P, entries, source_traits=SOURCE_TRAITS, tainted_fields=TAINTED_FIELDS,
@@ -95,11 +95,12 @@ def r1(ctx):
         ctx.fail(rule, s.key, "wire-derived value reaches %s without a dominating test (%s)" % (
             s.kind, "; ".join(X.render(e)[:100] for e, t in zip(s.tops, s.tainted) if t) or "control"),
             s.loc, detail)
-    ctx.analysed["C04.R1"] = {"entry_bodies": len(entries), "reachable_bodies": len(reach), "sinks": len(sinks),
+    ctx.analysed["C04.R1" + ("" if config == "A" else "@" + config)] = {"entry_bodies": len(entries), "reachable_bodies": len(reach), "sinks": len(sinks),
                               "taint_iterations": T.iterations, "tainted_fields": sorted("%s.%s" % k for k in T.field_taint)[:60],
                               "discharge": stats}
-    ctx.floor(rule, len(reach), "C04.R1.reachable")
-    ctx.floor(rule, len(sinks), "C04.R1.sinks")
+    if config == "A":
+        ctx.floor(rule, len(reach), "C04.R1.reachable")
+        ctx.floor(rule, len(sinks), "C04.R1.sinks")
     return T
 
 
@@ -370,6 +371,10 @@ def r6(ctx):
 
 def run(ctx):
     T = r1(ctx)
+    if ctx.tier == "thorough":
+        # the same taint analysis over the build with descriptive-deserialize-errors: code that exists only there must not
+        # add a panic path either (sites shared with configuration A are re-evaluated under the same keys)
+        r1(ctx, "B")
     r2(ctx)
     r3(ctx)
     r4(ctx)
